@@ -261,7 +261,11 @@ def abstract(a):
     for i in range(n):
         t = at[i]
         ex = {lab: str(xf[i][li]) for li, lab in enumerate(xl["atom"])}
-        atoms.append(RAtom(pos[i], els[t], labs[t], masses[t], a.charges[i], a.groups[i], str(pcs[t]) if len(pcs) else None, ex))
+        def ent(table, t, what):
+            return table[t] if 0 <= t < len(table) else "<no %s for type id %d>" % (what, t)
+        m_ = masses[t] if 0 <= t < len(masses) else float("nan")
+        atoms.append(RAtom(pos[i], ent(els, t, "element"), ent(labs, t, "label"), m_, a.charges[i], a.groups[i],
+                           str(ent(pcs, t, "pair coefficients")) if len(pcs) else None, ex))
     terms = {}
     tabled = {}
     for k in KINDS:
@@ -275,7 +279,7 @@ def abstract(a):
         for j in range(len(tup)):
             ex = {lab: str(xf[j][li]) for li, lab in enumerate(xl[k])}
             tid = int(typ[j])
-            out.append(RTerm(tup[j], ("c", str(table[tid])) if table else ("t", tid), ex))
+            out.append(RTerm(tup[j], ("c", str(table[tid]) if 0 <= tid < len(table) else "<no coefficients for type id %d>" % tid) if table else ("t", tid), ex))
         terms[k] = out
     m = RefAtoms()
     m.atoms, m.terms, m.xlabels, m.tabled, m.has_pair = atoms, terms, xl, tabled, len(pcs) > 0
